@@ -218,3 +218,32 @@ def run(ctx):
                 # the loop that drains the buffered batch precedes the append of Sync
                 drain = [c for c in h.calls("re:VecDeque::.*pop_front$") if h.dominates(starm, c.block)]
                 r5.check(bool(drain) and all(c.block in h.backreach([msgput[0].block]) for c in drain), "drain-before-sync", "the buffered extended-protocol messages are drained into the buffer before Sync is appended", "the buffered batch is not drained before Sync is appended")
+            # order: an arm of the transaction loop that appends to Client.buffer forwards only Client.buffer. A message kind that is
+            # buffered must never overtake what is already pending (same bytes, different order, is a different stream)
+            arms_ = sorted({t for v, t in code_sw[0].targets})
+            n_arm = 0
+            for arm in arms_:
+                codes = sorted(chr(v) for v, t in code_sw[0].targets if t == arm)
+                appends = [c for c in h.calls("re:BufMut>::put$|BufMut::put$|put_slice$|extend_from_slice$") if h.dominates(arm, c.block) and fields_of(h, c.args[0]) == {"buffer"}]
+                if not appends:
+                    continue
+                n_arm += 1
+                direct = []
+                for c in h.calls("pgcat::client::Client::send_server_message", "pgcat::client::Client::send_and_receive_loop", "pgcat::server::Server::send"):
+                    if not h.dominates(arm, c.block):
+                        continue
+                    payload = c.args[2] if c.name.endswith(("send_server_message", "send_and_receive_loop")) else c.args[1]
+                    if c.name.endswith("send_and_receive_loop"):
+                        # Option<&BytesMut>: None means "Client.buffer"
+                        ag = [o for o in origins(h, payload) if o.kind == "agg"]
+                        is_none = any(o.kind == "agg" and (o.extra or {}).get("variant") == "None" for o in origins(h, payload)) or any(o.kind == "const" for o in origins(h, payload))
+                        fl = fields_of(h, payload, taint=True)
+                        if is_none or fl == {"buffer"}:
+                            continue
+                        direct.append(c)
+                    elif fields_of(h, payload) != {"buffer"}:
+                        direct.append(c)
+                r5.check(not direct, "arm-forwards-buffer:" + "".join(codes), "the %s arm appends to Client.buffer and forwards only Client.buffer" % "/".join(codes),
+                         "the %s arm appends to Client.buffer but also forwards something else directly: bytes already pending in the buffer are overtaken and reach the server out of order" % "/".join(codes),
+                         direct[0].where() if direct else "")
+            r5.check(n_arm >= 3, "buffering-arms", "%d arms of the transaction loop append to Client.buffer (Sync, CopyData, CopyDone/CopyFail)" % n_arm, "expected >= 3 buffering arms, found %d" % n_arm)
